@@ -14,12 +14,13 @@ from . import c01_gen as G
 CONFIGS = [(syntax, fmt) for syntax in ('html', 'xml', 'xhtml') for fmt in (True, False)]
 
 
-def check_tree(ast, extra):
-    """ast: abbreviation AST; extra: additional `^` written on every top-level join"""
+def check_tree(ast, extra, which=None):
+    """ast: abbreviation AST; extra: additional `^` written on every top-level join; which: None = all six
+    configurations, 0..2 = one pair of them (two different syntaxes, output.format on and off)"""
     from emmet import expand
     abbr = G.print_abbr(ast, extra)
     expected = G.denote(ast)
-    for syntax, fmt in CONFIGS:
+    for syntax, fmt in (CONFIGS if which is None else (CONFIGS[which % 6], CONFIGS[(which + 3) % 6])):
         out = expand(abbr, {'syntax': syntax, 'options': {'output.format': fmt}})
         try:
             got = G.shape(G.parse_markup(out, void_without_slash=(syntax == 'html')))
@@ -105,11 +106,11 @@ def random_cases(seed, count, nmin, nmax):
 
 def run(tier, seed):
     if tier == 'quick':
-        plan = [([(1, 2, 2), (2, 2, 2), (3, 2, 2)], 3), ([(4, 2, 2)], 1)]
+        plan = [([(1, 2, 2), (2, 2, 2), (3, 2, 2)], None, False), ([(4, 2, 2)], 1, True), ([(5, 1, 1)], 1, True)]
         clamp = [(2, 1, 1), (3, 1, 1), (4, 1, 1)]
         nrand, rmin, rmax = 1000, 6, 40
     else:
-        plan = [([(1, 2, 3), (2, 2, 3), (3, 2, 3), (4, 2, 2)], None), ([(5, 2, 2)], 1), ([(6, 2, 1)], 1), ([(7, 0, 2)], 1)]
+        plan = [([(1, 2, 3), (2, 2, 3), (3, 2, 3), (4, 2, 2)], None, False), ([(5, 2, 2)], 1, False), ([(6, 2, 1)], 1, False), ([(7, 0, 2)], 1, False)]
         clamp = [(2, 2, 2), (3, 2, 2), (4, 2, 2), (5, 1, 1)]
         nrand, rmin, rmax = 10000, 6, 40
     out = []
@@ -123,11 +124,15 @@ def run(tier, seed):
     c = Clause('skeleton-exhaustive', 'B',
                'every operator skeleton (ordered forest of elements; any run of siblings may be wrapped in a group, groups '
                'nest; *2/*3 on elements and groups), abbreviation printed from the tree with >, +, ^-climbs and ( )',
-               ' | '.join('%s: %s' % (fmt(sp), vname(v)) for sp, v in plan) + ' | each x html/xml/xhtml x output.format on/off',
+               ' | '.join('%s: %s, %s' % (fmt(sp), vname(v), 'one rotating pair of configurations (two syntaxes; format on + off)'
+                                          if pair else 'all 6 configurations html/xml/xhtml x output.format on/off') for sp, v, pair in plan),
                'a case is one abbreviation AST (skeleton x repeater placement x naming variant: all named / odd implicit / '
-               'even implicit / all implicit / void leaves); distinct by AST; all six configurations are checked inside', exhaustive=True)
-    for sp, v in plan:
-        run_parallel(c, 'bounded.c01', 'check_tree', G.exhaustive_cases(sp, v), chunk=400)
+               'even implicit / all implicit / void leaves); distinct by AST; the configurations are evaluated inside the case', exhaustive=True)
+    for sp, v, pair in plan:
+        cases = G.exhaustive_cases(sp, v)
+        if pair:
+            cases = ((ast, extra, i % 3) for i, (ast, extra) in enumerate(cases))
+        run_parallel(c, 'bounded.c01', 'check_tree', cases, chunk=400)
     out.append(c.done())
 
     c = Clause('implicit-name-table', 'B',
